@@ -77,7 +77,10 @@ func Match(c *core.Case) string {
 	}
 	var expr parser.Expr
 	if c.Query != "" {
-		expr, _ = parser.ParseExpr(c.Query)
+		var err error
+		if expr, err = parser.ParseExpr(c.Query); err != nil {
+			expr = nil
+		}
 	}
 	for _, f := range fs {
 		applies := false
